@@ -150,6 +150,41 @@ theorem C10_request_acknowledged (cfg : Cfg) (mid token : Nat) (drawFn : Nat →
     exact recv_opens (setNow s t) R mcl w hreq hc hnew
   exact run_Owed (step_QInv hq _) (step_PInv hq hk _) hp post hpost
 
+theorem ackCount_pos_of_AckedIn {p : Piggy} {os : List Out} (h : AckedIn p os) :
+    1 ≤ ackCount p.remote p.mid os := by
+  obtain ⟨t, w, hm, h1, h2⟩ := h
+  unfold ackCount
+  exact List.countP_pos_iff.mpr ⟨_, hm, by simp [isAckTo, h1, h2]⟩
+
+/-- **C10 (acknowledged exactly once).** The two halves put together, over a whole run from the
+initial state: `pre`, then a confirmable request `w` from `R` that is no duplicate, then `post`
+without a shutdown.  If `w` is the only confirmable message from `R` under its message ID in the
+run (no retransmission arrived), the application does not type its messages ACK/RST (`AppOk`), and
+the opportunity is no longer pending at the end (a response was given, the timer has fired, or a
+later request took the token), then **exactly one** ACK under `w.mid` went to `R` in the whole run. -/
+theorem C10_ack_exactly_once (cfg : Cfg) (mid token : Nat) (drawFn : Nat → Nat) (pre post : List TEv)
+    (t : Nat) (R : Remote) (mcl : Bool) (w : Wire)
+    (hs : (run (init cfg mid token drawFn) pre).1.shutMsg = false)
+    (hreq : isRequest w.code = true) (hc : w.mtype = .con)
+    (hnew : isDup (run (init cfg mid token drawFn) pre).1 R w = false)
+    (hpost : ∀ e ∈ post, e.ev ≠ .shutdown)
+    (hok : ∀ e ∈ pre ++ ⟨t, .recv R mcl w⟩ :: post, AppOk e.ev)
+    (h1 : conRecvs R w.mid (pre ++ ⟨t, .recv R mcl w⟩ :: post) = 1)
+    (hgone : (⟨R, w.token, w.mid, t + (run (init cfg mid token drawFn) pre).1.cfg.emptyAckDelay⟩ : Piggy) ∉
+      (run (init cfg mid token drawFn) (pre ++ ⟨t, .recv R mcl w⟩ :: post)).1.piggy) :
+    ackCount R w.mid (run (init cfg mid token drawFn) (pre ++ ⟨t, .recv R mcl w⟩ :: post)).2 = 1 := by
+  have hle := C10_ack_at_most_once cfg mid token drawFn _ hok R w.mid h1
+  have hack := C10_request_acknowledged cfg mid token drawFn pre post t R mcl w hs hreq hc hnew hpost
+  simp only at hack
+  rw [run_append] at hgone hle ⊢
+  simp only [run] at hgone hle ⊢
+  rcases hack with hp | ha
+  · exact absurd hp hgone
+  · have h2 := ackCount_pos_of_AckedIn ha
+    simp only [ackCount_append] at hle ⊢
+    simp only at h2
+    omega
+
 -- non-vacuity -------------------------------------------------------------------------------
 
 def c10t0 : State := init c10Cfg 500 0 (fun _ => 20)
@@ -220,6 +255,16 @@ example : (run c10t0 c10MisfitRun).1.exchanges.length = 1 ∧ (run c10t0 c10Misf
 /-- the theorems apply to these runs (hypotheses discharged by evaluation) -/
 example : ackCount 1 71 (run c10t0 c10OnceRun).2 ≤ 1 :=
   C10_ack_at_most_once c10Cfg 500 0 (fun _ => 20) c10OnceRun (by decide) 1 71 (by decide)
+
+/-- `C10_ack_exactly_once` applies to `c10OnceRun` (all hypotheses discharged by evaluation) and to
+the token re-use run (request 70, superseded at 8 by request 71 on the same token) -/
+example : ackCount 1 71 (run c10t0 ([] ++ ⟨5, .recv 1 false (c10Req .con 71)⟩ :: c10OnceRun.tail)).2 = 1 :=
+  C10_ack_exactly_once c10Cfg 500 0 (fun _ => 20) [] c10OnceRun.tail 5 1 false (c10Req .con 71)
+    (by decide) (by decide) rfl (by decide) (by decide) (by decide) (by decide) (by decide)
+
+example : ackCount 1 70 (run c10t0 ([] ++ ⟨5, .recv 1 false (c10Req .con 70)⟩ :: c10ReuseRun.tail)).2 = 1 :=
+  C10_ack_exactly_once c10Cfg 500 0 (fun _ => 20) [] c10ReuseRun.tail 5 1 false (c10Req .con 70)
+    (by decide) (by decide) rfl (by decide) (by decide) (by decide) (by decide) (by decide)
 
 /-- a CON request (id 71, arrived at 5) is pending; the event loop runs up to 100 with fuel 10:
 one timer fires (the fuel is not exhausted), the empty ACK goes out at 5 + 10 -/
